@@ -88,10 +88,10 @@ def run(tier, seed, jobs=None):
                           f'(choice prefix {b["prefix"]})', {'item': name, 'prefix': b['prefix']},
                           {'default': a['t'][:3000], 'other': b['t'][:3000]}))
             if v['default'] != v['outcomes'][0]['t'] and not v['capped']:
-                key = f'repeat:{family(name)}'
+                key = f'order:sorted-vs-hash-order:{family(name)}'
                 vcount[key] = vcount.get(key, 0) + 1
-                V.append((key, f'{name}: running the item again in the same process gives a different result',
-                          {'item': name}, None))
+                V.append((key, f'{name}: iterating sets in sorted order and in the interpreter\'s hash order give '
+                          f'different results in the same process', {'item': name}, None))
         # cross-process stage
         ref_seed, ref = plain[0]
         for sd, res in plain:
